@@ -32,7 +32,57 @@ func (c07) dupCount(tier string) int      { return tierN(tier, 600, 40000) }
 func (p c07) NumCases(tier string) int    { return p.mainCount(tier) + p.dupCount(tier) }
 func (c07) MinNontrivial(tier string) int { return tierN(tier, 500, 5000) }
 
+// unfitLazy: an optional interface point names a component that exists but cannot be assigned to the field, and that
+// component is lazy and could not even be created (its Init fails / it needs something absent): the field is left
+// empty and the start succeeds; a required one fails the start.
+func (p c07) unfitLazy(c *core.Ctx) {
+	g := world.NewG(c.Rng)
+	lz := g.AddNode(7, "lazy-b") // T07: IB only, lazy, Init + AfterPropertiesSet
+	switch c.Rng.Intn(3) {
+	case 0:
+		g.Sc.Nodes[lz].Fails = []string{"init"}
+	case 1:
+		g.SetTag(lz, "IA0", "wire", "no-such-component")
+	}
+	for x, nx := 0, 1+c.Rng.Intn(3); x < nx; x++ {
+		g.AddNode([]int{0, 1, 3, 6}[c.Rng.Intn(4)], g.FreshName(x+1))
+	}
+	h := g.AddNode(world.TypesEagerPlain[c.Rng.Intn(len(world.TypesEagerPlain))], g.FreshName(8))
+	optional := c.Rng.Intn(3) > 0
+	slot := []string{"IA0", "IA1", "IC0"}[c.Rng.Intn(3)]
+	tag := "lazy-b"
+	if optional {
+		tag += ",required=false"
+	}
+	g.SetTag(h, slot, "wire", tag)
+	g.ShuffleOrders()
+	r := world.Start(g.Sc, world.Options{})
+	c.Count("starts", 1)
+	c.Count("unfit_lazy_starts", 1)
+	detail := failDetail(g.Sc, r, map[string]any{"slot": slot, "optional": optional})
+	if abnormal(r.Outcome()) {
+		c.Fail("", "by-name point naming a lazy component of an unfit type: "+core.Short(r.OutcomeDetail(), 300), detail)
+		return
+	}
+	refs, _ := r.SlotRefs(r.Nodes[h], slot)
+	filled := len(refs) == 1 && !refs[0].Nil
+	if optional {
+		if r.Outcome() != "ok" || filled {
+			c.Fail("", fmt.Sprintf("optional point %s `wire:%q`: the named component cannot be assigned to the field; outcome %s, field filled: %v (expected a successful start and an empty field): %s", slot, tag, r.Outcome(), filled, core.Short(r.OutcomeDetail(), 200)), detail)
+			return
+		}
+	} else if r.Outcome() != "error" {
+		c.Fail("", fmt.Sprintf("required point %s `wire:%q`: the named component cannot be assigned to the field, but App.Run returned %s (field filled: %v)", slot, tag, r.Outcome(), filled), detail)
+		return
+	}
+	c.Nontrivial(fmt.Sprintf("unfitlazy|%s|%v|%s", slot, optional, g.Sc.GraphSig()))
+}
+
 func (p c07) Run(c *core.Ctx) {
+	if c.Index < p.mainCount(c.Tier) && c.Index%16 == 1 {
+		p.unfitLazy(c)
+		return
+	}
 	if c.Index >= p.mainCount(c.Tier) {
 		p.dup(c)
 		return
